@@ -89,4 +89,11 @@ example : (["system".toList] : List Str).contains
     (tokenScope (mirrorSystemScope (.obj [("project_id".toList, .str ['x'])] []))) = false := by
   decide
 
+/-! The row seeded change C08-A8 broke: a `system` key that is present but empty next to
+`system_scope = 'all'` — the token is system-scoped (instance of `system_scope_spelling`). -/
+example : tokenScope (mirrorSystemScope
+    (.obj [(system_, .null), (systemScope_, .str "all".toList), ("project_id".toList, .str ['p'])] [])) =
+    "system".toList := by
+  decide
+
 end OsloPolicy.C08
